@@ -298,6 +298,11 @@ func init() {
 				items = append(items, explore("C06", sc, b, true))
 			}
 			for _, sc := range FamilyCont(tier) {
+				if strings.HasSuffix(sc.Name, "-slow") && tier != "thorough" {
+					// many timer-driven threads: every free switch multiplies; one paid deviation instead
+					items = append(items, explore("C06", sc, 1, false))
+					continue
+				}
 				items = append(items, explore("C06", sc, b-1, true))
 			}
 			// the same gating across a crash: every durable state of the check-group scenarios is a crash point
